@@ -45,9 +45,7 @@ def run(ctx):
                                    allowed_globals={'bs100k', 'in_granul', 'out_granul'})
     codecrules.schedule_values_confined(ctx, prog, 'C09', ('expand',))
     codecrules.resume(ctx, prog, 'C09')
-    codecrules.emit_symbol_law(ctx, prog, 'C09')
-    codecrules.emit_state_signatures(ctx, prog, 'C09')
-    codecrules.unrle_walk(ctx, prog, 'C09', only=('more', 'data', 'repeat', 'ok'))
+    codecrules.unrle_walk(ctx, prog, 'C09')
     c05.parse_fsm_rule(ctx, prog, pfx='C09', crc_bits=False)
     codecrules.uninit(ctx, prog, 'C09', units=('decode', 'parse', 'expand'))
     outmode_invisible(ctx, prog)
